@@ -138,6 +138,9 @@ func cmdVerify(args []string) {
 		for _, d := range u.Detached {
 			fmt.Println("    DETACHED:", d)
 		}
+		if u.Vacuous != "" {
+			fmt.Println("    VACUOUS: contradictory assumptions at the return (", u.Vacuous, ")")
+		}
 		for _, o := range u.Obs {
 			if !filter(o) {
 				continue
